@@ -129,7 +129,7 @@ func (c *Ctx) merge2(a, b *State) *State {
 	n := newState()
 	cond := a.pc // in join, value = ite(a.pc, a.val, b.val)
 	n.pc = Or(a.pc, b.pc)
-	if n.pc.Op == "or" {
+	if n.pc.Op == "or" && c.inQuant == 0 {
 		p := c.fresh("pc", SBool)
 		c.defs = append(c.defs, fmt.Sprintf("(assert (= %s %s))", p.Op, renderTerm(n.pc)))
 		n.pc = p
